@@ -240,5 +240,8 @@ def run(ctx):
     try:
         from . import c07
         c07.r1_declared_outcomes(ctx, rule_prefix='C15.R5')
+        import_rules(ctx, 'C15.R5-search-answer-provenance', [c07.r2_no_fabrication, c07.r7_candidates_are_legal],
+                     'the move the engine plays when the book has nothing is the search answer: it must be one of the legal moves generated '
+                     'for the current position in this call (not a remembered answer, not an unfiltered candidate)', floor=4)
     except ImportError:
         pass
